@@ -1015,3 +1015,34 @@ def reachable_bodies(facts, roots, graph=None):
         seen.add(x)
         stack.extend(g.get(x, ()))
     return seen
+
+
+_rev_cache = {}
+
+
+def only_reached_from(facts, x, roots):
+    """True when body x is one of `roots` or a non-public helper / closure all of whose callers (transitively) are: code that can
+    only run as part of those entry points"""
+    k = id(facts)
+    if k not in _rev_cache:
+        g = call_graph(facts)
+        rev = {}
+        for a, bs_ in g.items():
+            for b_ in bs_:
+                rev.setdefault(b_, set()).add(a)
+        _rev_cache[k] = rev
+    rev = _rev_cache[k]
+    roots = set(roots)
+
+    def rec(y, seen):
+        if y in roots:
+            return True
+        if y in seen:
+            return True
+        seen.add(y)
+        b_ = facts.bodies.get(y)
+        if b_ is None or (b_.get("vis") == "pub" and "{closure" not in y):
+            return False
+        cs = rev.get(y, set())
+        return bool(cs) and all(rec(c_, seen) for c_ in cs)
+    return rec(x, set())
